@@ -102,6 +102,10 @@ def grammar_corpus():
         "indirect_lr_two_entries": ("ab", ["N0 -> a N1 a", "N0 -> b N2 b", "N3 -> a", "N1 -> N2 a", "N1 -> N3 b", "N2 -> N1 b", "N2 -> a"]),
         "indirect_lr_lone_member": ("ab", ["N0 -> a N2", "N1 -> N2 a", "N2 -> N1 b", "N1 -> N3 b", "N3 -> a", "N0 -> N1", "N2 -> b"]),
     }
+    # overlapping UNARY cycles on four nonterminals (a node reaches far back on the DFS stack before it sees a nearer one): the
+    # component structure must not depend on the visiting order (seeded changes C15-3, C11-5, C07-12)
+    ilr["unary_overlap4"] = ("ab", ["N0 -> N1", "N1 -> N2", "N2 -> N3", "N3 -> N1", "N3 -> N0", "N2 -> N0", "N0 -> a", "N3 -> b"])
+    ilr["unary_overlap4b"] = ("ab", ["N0 -> N1", "N1 -> N2", "N2 -> N0", "N2 -> N3", "N3 -> N2", "N3 -> N1", "N1 -> a", "N3 -> b N3"])
     prm = random.Random(20240917)
     for nm, (V, rules) in ilr.items():
         c[nm] = shape("N0", V, *rules)
